@@ -657,6 +657,7 @@ int main(int argc, char **argv)
             x_ticks = atoi(argv[i + 5]);
             i += 5;
         }
+#ifdef VERIF_EXECUTOR
         else if (!strcmp(argv[i], "--xscript") && i + 2 < argc)
         { // e.g. s0=2x2,e1=1x1,f=6:1  followed by the number of ticks
             exec_mode = true;
@@ -678,6 +679,7 @@ int main(int argc, char **argv)
             x_ticks = atoi(argv[i + 2]);
             i += 2;
         }
+#endif
         else if (!strcmp(argv[i], "--script"))
             as_script = true;
         else if (!strcmp(argv[i], "--recover"))
